@@ -54,9 +54,9 @@ P = {
          'order-law-generic bisection proof + Flocq monotonicity proof; boundary-exhaustive correspondence',
          'libstdc++ upper_bound / partial_sum / generate_canonical are modelled (validated by the tie).'),
  'C10': ('Law-generic theorems: an iteration of N calls advances the generator by exactly N x d (N x (d+1) multi-channel) canonical numbers whatever the integrand returns; the stored generator is '
-         'the advanced one; the translated usage predictor equals ceil(b / log2 R); supplement Properties_C10m: the same stored positions on every rank of the lock-step MPI model. Real engines (nine standard + synthetic) are measured against the predictor by a C++-only check; the MPI drivers run under real mpirun with instantiations of std::linear_congruential_engine (increment != 0, odd moduli) against the serial stored generator.',
+         'the advanced one; the usage predictor (since the repair of the defect for engine ranges 2^7, 2^14, 2^53) counts what std::generate_canonical takes and equals the cost of every number for any implementation whose consumption is value-independent; supplement Properties_C10m: the same stored positions on every rank of the lock-step MPI model. Real engines (nine standard, engine adaptors with power-of-two ranges, odd moduli, synthetic) are measured against the predictor by a C++-only check; the MPI drivers run under real mpirun with instantiations of std::linear_congruential_engine (increment != 0, odd moduli) against the serial stored generator.',
          'induction over calls on the iteration model + translated predictor arithmetic + draw counting on real engines',
-         'floor(log2 R) agreement between hep-mc and libstdc++ is measured, not proved.'),
+         'Value-independence of the consumption of std::generate_canonical is a hypothesis (true of the C++11 algorithm; measured on every engine of the harness).'),
  'C11': ('Real-arithmetic theorems about the model\'s fill1d / fill2d: a finite value goes to flat index ky*bx+kx iff the coordinate lies in that half-open bin, to no bin outside; mid-points enumerate the '
          'same order; each bin reports the full calls and scaled sums; IEEE: the float->size_t cast is only reached with a value in range (no UB), and (Properties_C11f) the selected bin k satisfies k(1-u)^2 <= exact position < (k+1)(1+u), i.e. the bin of the coordinate or an adjacent one within a rounding error of the edge, with the converse for interior coordinates.',
          'case analysis on the executed fill model over the reals + Flocq no-UB lemma; edge/neighbour correspondence',
@@ -76,7 +76,7 @@ P = {
  'C15': ('Law-generic theorems: rollback(k) of a reachable checkpoint (in memory or reloaded) serialises like the checkpoint after k iterations and resumes identically; rollback(n) is the identity; k > n is rejected.',
          'induction over the run model with the codec equivalence; history-based correspondence incl. reloads',
          ''),
- 'C16': ('Six kernel-checked, axiom-free theorems over Z about the clang-AST-translated discard_before / discard_after / three sub_calls copies / usage arithmetic with the unsigned 64-bit wrap explicit: '
+ 'C16': ('Five kernel-checked, axiom-free theorems over Z about the clang-AST-translated discard_before / discard_after / three sub_calls copies with the unsigned 64-bit wrap explicit: '
          'balanced shares, sum = total, contiguity, common end position, for all totals < 2^64 and world sizes < 2^31; the translator regenerates the definitions from /repo on every run.',
          'integer theorems (lia/nia) about definitions translated from the headers on every run + exhaustive small-domain correspondence',
          'Range hypotheses: totals < 2^64, world < 2^31.'),
